@@ -889,6 +889,9 @@ func suiteMisuse(o *Out, thorough bool, seed int64) {
 			"$t = this, max($t)", "$t = this, upper($t)", "$t = this, $u = $t, $u.$t.a", "$t = this, mapToArr([$t], 'a')", "$t = this, $t.s + $t.$t.s", "$t = this, nofn($t)", "$t = this, $t.k.j($t)",
 			"'' + env", "toString(env)", "len(env)", "h(env)", "toString(penv)", "'' + penv", "env.Name", "env.Vars.a", "toString(ring)", "'' + ring", "h(ring)", "toString(ringv)", "'' + two", "h(two)", "ring.Name",
 			"toString(selfish)", "'' + selfish", "join(envs, ',')", "'' + envs", "[ring, two] == null", "typeof ring + typeof env", "g(ring)", "g(env)", "!ring", "ring ?? 1", "$r = ring, toString($r)"}
+		for _, nm := range []string{"rowsU", "arrU", "mapU", "rowsE", "rowsI", "rowsS", "rowsN", "nestU", "mapsU", "ptrsU", "rowU", "arr2U"} {
+			cyc = append(cyc, "'' + "+nm, "toString("+nm+")", "h("+nm+")", "join(["+nm+"], ',')", "len("+nm+")", "'x' < "+nm, "'x' == "+nm)
+		}
 		type pr struct{ out, errText string }
 		res := make([]pr, len(cyc))
 		var wg sync.WaitGroup
@@ -1470,6 +1473,7 @@ func suiteNames(o *Out, thorough bool, seed int64) {
 		}
 		o.Stat("struct-programs")
 	}
+	passThroughOracle(o)
 }
 
 // ---------- C12 ----------
@@ -1757,4 +1761,98 @@ func suiteStrings(o *Out, thorough bool, seed int64) {
 		}
 		emitEval(o, "'p' + 'tab\\there' + \"q\\x41\"", 0, "-", "-", true)
 	}
+}
+
+// passThroughOracle: "strings, booleans, times, slices and maps are handed on unchanged" - judged on the Go values
+// themselves, which carry more than the model's view of them: a time read from the clock has a monotonic reading
+// (and == on times compares it), a slice and a map have an identity.  Every formula that merely selects a value of the
+// data must return that very value, and a host function must receive it.
+type ptRow struct {
+	Created time.Time
+	Tags    []interface{}
+	Meta    map[string]interface{}
+}
+
+func passThroughOracle(o *Out) {
+	stamp := time.Now() // carries a monotonic clock reading
+	later := stamp.Add(1500 * time.Millisecond)
+	inZone := stamp.In(time.FixedZone("X", 3600))
+	sl := []interface{}{1, "a"}
+	mp := map[string]interface{}{"k": 1}
+	var got []interface{}
+	data := map[string]interface{}{"t": stamp, "u": later, "z": inZone, "s": "text", "b": true, "sl": sl, "mp": mp,
+		"order": map[string]interface{}{"created": stamp, "tags": sl, "meta": mp}, "row": ptRow{Created: stamp, Tags: sl, Meta: mp}, "rows": []interface{}{stamp, sl, mp},
+		"seen": func(v interface{}) (bool, error) { got = append(got, v); return true, nil }, "seenT": func(v time.Time) (bool, error) { got = append(got, v); return true, nil }}
+	same := func(a, b interface{}) bool {
+		switch x := a.(type) {
+		case time.Time:
+			y, ok := b.(time.Time)
+			return ok && x == y // wall, ext (monotonic reading) and location pointer
+		case []interface{}:
+			y, ok := b.([]interface{})
+			return ok && len(x) == len(y) && (len(x) == 0 || &x[0] == &y[0])
+		case map[string]interface{}:
+			y, ok := b.(map[string]interface{})
+			return ok && fmt.Sprintf("%p", x) == fmt.Sprintf("%p", y)
+		default:
+			return a == b
+		}
+	}
+	want := map[string]interface{}{"t": stamp, "u": later, "z": inZone, "s": "text", "b": true, "sl": sl, "mp": mp, "order.created": stamp, "order.tags": sl, "order.meta": mp,
+		"row.Created": stamp, "row.Tags": sl, "row.Meta": mp}
+	for path, w := range want {
+		for _, shape := range []string{"%s", "this.%s", "null ?? %s", "%s || 1", "1 && %s", "true ? %s : 0", "false ? 0 : %s", "$v = %s, $v", "(%s)", "(0, %s)", "$w = %s", "nope ?? %s", "%s ?? 1"} {
+			text := fmt.Sprintf(shape, path)
+			line := fmt.Sprintf("NOP\tpassthrough\t%s", hx([]byte(text)))
+			src, err := formula.ParseSourceCode([]byte(text))
+			if err != nil {
+				continue
+			}
+			r := formula.NewRunner()
+			r.SetThis(data)
+			var v interface{}
+			pan, msg := protect(func() { v, err = r.Resolve(context.Background(), src.Expression) })
+			o.Case(line, "-", true)
+			if pan || err != nil {
+				o.Fail(line, fmt.Sprintf("%q failed: %v %s", text, err, msg))
+				continue
+			}
+			if !same(w, v) {
+				o.Fail(line, fmt.Sprintf("%q does not hand on the caller's value unchanged: %#v became %#v", text, w, v))
+			}
+		}
+		// the value a host function receives
+		for _, fn := range []string{"seen"} {
+			got = nil
+			text := fn + "(" + path + ")"
+			line := fmt.Sprintf("NOP\tpassthrough\t%s", hx([]byte(text)))
+			src, err := formula.ParseSourceCode([]byte(text))
+			if err != nil {
+				continue
+			}
+			r := formula.NewRunner()
+			r.SetThis(data)
+			protect(func() { r.Resolve(context.Background(), src.Expression) })
+			o.Case(line, "-", true)
+			if len(got) != 1 || !same(w, got[0]) {
+				o.Fail(line, fmt.Sprintf("the host function called as %q did not receive the caller's value unchanged: %#v, received %#v", text, w, got))
+			}
+		}
+	}
+	for _, text := range []string{"seenT(t)", "seenT(order.created)", "seenT(row.Created)", "seenT(rows[0])", "seenT(null ?? t)"} {
+		got = nil
+		line := fmt.Sprintf("NOP\tpassthrough\t%s", hx([]byte(text)))
+		src, err := formula.ParseSourceCode([]byte(text))
+		if err != nil {
+			continue
+		}
+		r := formula.NewRunner()
+		r.SetThis(data)
+		protect(func() { r.Resolve(context.Background(), src.Expression) })
+		o.Case(line, "-", true)
+		if len(got) != 1 || !same(stamp, got[0]) {
+			o.Fail(line, fmt.Sprintf("the host function with a time parameter called as %q did not receive the caller's time unchanged: received %#v", text, got))
+		}
+	}
+	o.Stat("pass-through identity")
 }
